@@ -14,8 +14,8 @@ package hx
 import (
 	"bytes"
 	"context"
-	"crypto/tls"
 	"crypto/sha256"
+	"crypto/tls"
 	"encoding/base64"
 	"encoding/binary"
 	"errors"
@@ -57,14 +57,14 @@ type FakeUpstream struct {
 }
 
 type RouterEnv struct {
-	Spec      string
-	R         *router.VerifRouter
-	Ups       []*FakeUpstream
-	Ports     map[string]int // listener kind -> port
-	dir       string
-	mu        sync.Mutex
-	behaviour map[string]Behaviour
-	queries   map[string][]UpQuery
+	Spec       string
+	R          *router.VerifRouter
+	Ups        []*FakeUpstream
+	Ports      map[string]int // listener kind -> port
+	dir        string
+	mu         sync.Mutex
+	behaviour  map[string]Behaviour
+	queries    map[string][]UpQuery
 	kinds      string // upstream kinds of the cfgspec (U=...)
 	keyed      bool
 	keyedTTL   uint32
